@@ -43,6 +43,8 @@ def check(repo, col, tier):
     _linear(repo, col)
     _additive(repo, col)
     _types(repo, col)
+    col.rule("R-C09-rows", "synapse parameters are written only to the selected synapses of the type that has the parameter", 6)
+    c10._rows(repo, col, "R-C09-rows")
 
 
 def _col_of(t: T):
@@ -71,8 +73,13 @@ def _roles(repo, col, cl, name):
     col.check(ok, "R-C09-space", fi, f"{name}: edges grouped by type in table order", "groupby('type', sort=False)",
               "the grouping by synapse type may reorder types relative to the per-type parameter arrays", node=gb[0] if gb else fi.node)
     asserts = [n for n in ast.walk(fi.node) if isinstance(n, ast.Assert)]
-    ok = any("synapse_names[i]" in unparse(a.test) and "._name" in unparse(a.test) and isinstance(a.test, ast.Compare)
-             and isinstance(a.test.ops[0], ast.Eq) for a in asserts)
+    ok = False
+    for a in asserts:
+        tt = ex.term(a.test)
+        if tt.op == "cmp" and tt.name == "==" and len(tt.args) == 2:
+            has_name = [T.find(x, lambda y: y.op == "attr" and y.name == "_name") is not None for x in tt.args]
+            from_groups = [T.find(x, lambda y: y.op == "mcall" and y.name == "groupby") is not None for x in tt.args]
+            ok = ok or (has_name[0] and from_groups[1]) or (has_name[1] and from_groups[0])
     col.check(ok, "R-C09-types", fi, f"{name}: order of grouped types asserted against the synapse list",
               "assert synapse_names[i] == synapse_type._name", "the ordering assertion was removed", node=fi.node)
     # index spaces of every gather of a node array
